@@ -2,10 +2,106 @@
 import json
 from harness import common, tlc, shapes, jobs, proj as P
 
+DEVS = ('SplitLenBeforeAlloc', 'GrowSizeBeforeRealloc', 'NoClearOnFirstFail', 'GrowFreesKeysOnValueFail')
+AINV = ('CapOK', 'AbsOK', 'SoundF', 'OverfullOnlyAfterFault', 'FaultSeen', 'ErrIsMemoryError', 'Recovers', 'SameAsSetR')
+
+
+def acfg(nk, lf, it, is_set, minalloc=16, maxf=8, maxfaults=1, spec='ASpec', dev=(), invs=AINV, dump=False, view=True):
+    return """SPECIFICATION %s
+CONSTANTS
+  Keys = {%s}
+  Vals = {1}
+  MaxLeaf = %d
+  MaxInt = %d
+  Dev = {%s}
+  IsSet = %s
+  MinAlloc = %d
+  MaxF = %d
+  MaxFaults = %d
+%sCONSTRAINT FaultBound
+%s%s""" % (spec, ','.join(map(str, range(1, nk + 1))), lf, it, ','.join('"%s"' % d for d in dev), 'TRUE' if is_set else 'FALSE',
+           minalloc, maxf, maxfaults, 'VIEW AView\n' if view else '', ''.join('INVARIANT %s\n' % i for i in invs),
+           'ACTION_CONSTRAINT %s\n' % ('ADumpEff' if dump else 'NoIdleF'))
+
+
+def alloc_model(ck, quick):
+    """the allocation-granular specification: design checks, must-refute deviations, and exact conformance"""
+    # 1. TLC on Alloc: every reachable (tree, capacities) state under up to MaxFaults failed calls, every fault index
+    for (nk, lf, it, is_set, ma, mf) in ([(5, 2, 2, False, 16, 1), (4, 2, 2, True, 2, 2), (4, 3, 2, False, 2, 2)] if quick else
+                                         [(5, 2, 2, False, 16, 2), (5, 2, 2, True, 2, 2), (5, 3, 2, False, 2, 2), (5, 2, 3, False, 16, 2), (6, 2, 2, False, 16, 1), (6, 2, 2, True, 2, 1)]):
+        r = tlc.run('Alloc', acfg(nk, lf, it, is_set, minalloc=ma, maxfaults=mf), timeout=3400)
+        name = 'Alloc keys=%d sizes=(%d,%d) %s MIN_BUCKET_ALLOC=%d failed calls<=%d' % (nk, lf, it, 'set' if is_set else 'map', ma, mf)
+        ck.add_tlc(r.summary(), name)
+        common.tlc_verdict(ck, r, name)
+    # 2. non-vacuity: each named deviation (pre-fix D20, and three ways of getting the unwind wrong) must be refuted
+    for d in DEVS:
+        r = tlc.run('Alloc', acfg(4, 2, 2, False, minalloc=2, maxfaults=2, dev=(d,)), timeout=1800)
+        if not r.violation:
+            common.machinery_failure('Alloc with deviation %s was not refuted (%s)' % (d, r.error))
+        ck.note('refuted_' + d, r.violation)
+    # 3. spec -> code, exhaustive instance: every transition TLC explored (failed calls included), replayed exactly
+    plan = {}
+    for (nk, lf, it, is_set, mf) in ([(4, 2, 2, False, 2), (4, 2, 2, True, 2)] if quick else [(4, 2, 2, False, 3), (4, 2, 2, True, 3), (4, 3, 2, False, 2), (5, 2, 2, False, 1), (5, 2, 2, True, 1)]):
+        c = acfg(nk, lf, it, is_set, maxfaults=mf, spec='ASpecCore', invs=(), dump=True)
+        payloads, summ = tlc.cached_payloads('Alloc', c, 'TR', workers=1, timeout=7200)
+        fn = tlc.os.path.join(tlc.CACHE, 'dumps', 'Alloc-%s.json' % tlc.spec_hash('Alloc', c, 'TR', None, None, None))
+        ck.add_tlc(summ, 'Alloc dump keys=%d sizes=(%d,%d) %s failed calls<=%d: %d transitions' % (nk, lf, it, 'set' if is_set else 'map', mf, len(payloads)))
+        idx = list(range(len(payloads)))
+        ck.rng.shuffle(idx)
+        # every faulting transition, and a sample of the others (their paths are verified step by step as well)
+        faulting = [i for i in idx if payloads[i]['err']]
+        rest = [i for i in idx if not payloads[i]['err']]
+        budget = 1500 if quick else len(idx)
+        sel = faulting[:budget] + rest[:max(200, budget - len(faulting))]
+        plan[(fn, lf, it, is_set)] = ('dump', sel)
+    # 4. spec -> code, deep: behaviours of the simulator (16 keys, several failed calls in a row)
+    for (nk, lf, it, is_set, num, depth) in ([(12, 2, 2, False, 300, 50), (12, 2, 2, True, 300, 50), (16, 3, 2, False, 200, 60)] if quick else
+                                             [(12, 2, 2, False, 3000, 60), (12, 2, 2, True, 3000, 60), (16, 3, 2, False, 2000, 70), (16, 2, 3, True, 2000, 70), (16, 4, 3, False, 2000, 90)]):
+        c = acfg(nk, lf, it, is_set, maxf=12, maxfaults=99, spec='SSpec', invs=('CapOK', 'AbsOK', 'SoundF'), view=False).replace('ACTION_CONSTRAINT NoIdleF\n', '')
+        fn, behs, summ = tlc.simulate_behaviours('AllocSim', c, num, depth, seed=ck.seed + 5)
+        ck.add_tlc(summ, 'AllocSim simulation keys=%d sizes=(%d,%d) %s: %d behaviours' % (nk, lf, it, 'set' if is_set else 'map', len(behs)))
+        plan[(fn, lf, it, is_set)] = ('behaviours', len(behs))
+    for flavour in ('plain', 'asan'):
+        jobsl = []
+        fams = (['II', 'OO', 'LF', 'fs'] if quick else ['II', 'OO', 'LF', 'fs', 'OI', 'IO', 'QQ', 'UF', 'LL'])
+        if flavour == 'asan':
+            fams = fams[:2] if quick else fams[:4]
+        for (fn, lf, it, is_set), (mode, what) in plan.items():
+            for fam in fams:
+                if fam == 'fs' and is_set:
+                    continue
+                if mode == 'dump':
+                    parts = 2
+                    for p in range(parts):
+                        jobsl.append(dict(mode='dump', fam=fam, is_set=is_set, leaf=lf, internal=it, dump=fn, indices=what[p::parts]))
+                else:
+                    jobsl.append(dict(mode='behaviours', fam=fam, is_set=is_set, leaf=lf, internal=it, dump=fn, part=0, nparts=1))
+        results = jobs.run_jobs('harness.workers.alloc_worker', jobsl, flavour=flavour)
+        for job, res, err in results:
+            ident = dict(fam=job['fam'], is_set=job['is_set'], sizes=[job['leaf'], job['internal']], build=flavour, mode=job['mode'])
+            if err:
+                ck.violation('alloc worker died on the %s build %s: %s' % (flavour, ident, err[-1500:]), dict(ident, kind='crash', err=err[-3000:]))
+                continue
+            for k, v in res['counts'].items():
+                if k == 'max_allocs':
+                    ck.notes['alloc_max_allocs_per_call'] = max(ck.notes.get('alloc_max_allocs_per_call', 0), v)
+                else:
+                    ck.bump('alloc_%s_%s' % (flavour, k), v)
+            ck.add_traces(res['counts']['calls'])
+            for mm in res['mismatches']:
+                ck.violation('%s %s %s build sizes=%s: %s at %s (fault index %s) after %s' % (
+                    mm['fam'], 'set' if mm['is_set'] else 'map', flavour, mm['sizes'], mm['kind'], json.dumps(mm['act']), mm['fail_at'],
+                    json.dumps(mm['history'][-5:-1])), dict(mm, build=flavour))
+        if jobsl:
+            ck.sample(dict(kind='alloc job', build=flavour, job={k: v for k, v in jobsl[0].items() if k != 'indices'}))
+    if not ck.notes.get('alloc_plain_faulted_calls') or not ck.notes.get('alloc_plain_overfull_states'):
+        common.machinery_failure('the exact replay exercised no failing call / no over-long node')
+
 
 def main():
-    ck = common.Check('C17', level='fault_enumeration')
+    ck = common.Check('C17', level='model_checking')
     quick = ck.tier == 'quick'
+    alloc_model(ck, quick)
     # 1. TLC: the specification supplies the oracle -- source and target state of every transition of the bounded
     #    instance (BTreeImpl refines the sorted map, Sound holds) -- for "previous contents or the completed change"
     dumps = []
